@@ -237,6 +237,19 @@ def r13g(ctx, cls, f):
                     has = True
                 else:
                     others.append(T.show(rhs, 3))
+        # the octets handed to the cipher as IV are the ones removed: gcry_cipher_setiv(h, P, blklen) with
+        # P the very front of the buffer the remainder is moved to (not the position of the last read)
+        dst = ev[2][0]
+        ivsrc = [e2 for n2, e2 in a.all_events('call') if e2[1] == 'gcry_cipher_setiv' and len(e2[2]) == 3 and e2[2][2] == blk]
+        if not ivsrc:
+            ctx.bad('R13g', key0 + ':ivsrc', 'no gcry_cipher_setiv with blklen octets in the receive path (anchor changed)', f, line=ev[3], nec=False)
+        elif any(e2[2][1] != dst for e2 in ivsrc):
+            ok_all = False
+            ctx.bad('R13g', key0 + ':ivsrc', 'the cipher is given %s as initialisation vector, but the octets removed as IV are the front of the buffer (%s): '
+                    'when the IV arrives in several reads the two differ and decryption starts from a wrong IV' % (
+                        T.show([e2[2][1] for e2 in ivsrc if e2[2][1] != dst][0], 3), T.show(dst, 3)), f, line=ev[3])
+        else:
+            ctx.ok('R13g', key0 + ':ivsrc', 'the IV handed to the cipher is the front of the link buffer, the same octets that are removed', f, line=ev[3])
         if has and not others:
             ctx.ok('R13g', key0 + ':iv', 'the IV is consumed exactly when blklen octets have accumulated in the buffer', f, line=ev[3])
         else:
